@@ -214,6 +214,19 @@ def record(item):
                         rec["sr"].append([(c.state.state_id, c.term.name, [q.prod_id for q in c.productions]) for c in p.table.sr_conflicts])
                         rec["rr"].append([(c.state.state_id, c.term.name, [q.prod_id for q in c.productions]) for c in p.table.rr_conflicts])
                         if tb == "LALR":
+                            # several accepted heads: the order in which they are merged must not depend on hashing
+                            try:
+                                pp = pgx.glr(pg, consume_input=False)
+                                for w in item["inputs"][:6]:
+                                    o = glrobs.parse_glr(pp, w + w)
+                                    if o.kind == "forest" and not o.loop:
+                                        rec["forests"].append(["prefix-mode", w + w, o.len, [o.forest[i].to_str() for i in range(min(o.len, 12))]])
+                                        if o.len > 1:
+                                            rec["ambiguous"] += 1
+                                    else:
+                                        rec["forests"].append(["prefix-mode", w + w, o.kind])
+                            except Exception as e:  # noqa: BLE001
+                                rec["errors"].append("prefix-mode:" + type(e).__name__)
                             for w in item["inputs"]:
                                 o = glrobs.parse_glr(p, w)
                                 if o.kind == "forest" and not o.loop:
